@@ -1272,6 +1272,9 @@ func (in *Interp) load(fr *frame, p Ptr) Value {
 	if p.isNil() {
 		in.throw(fr, "invalid memory address or nil pointer dereference")
 	}
+	if p.sym == nil && in.sc != nil && in.sc.race != nil {
+		in.raceAccess(fr, &p.base[p.i], false)
+	}
 	return copyVal(in.loadRaw(p))
 }
 
@@ -1279,6 +1282,9 @@ func (in *Interp) store(fr *frame, addr Value, v Value) {
 	p := addr.(Ptr)
 	if p.isNil() {
 		in.throw(fr, "invalid memory address or nil pointer dereference")
+	}
+	if p.sym == nil && in.sc != nil && in.sc.race != nil {
+		in.raceAccess(fr, &p.base[p.i], true)
 	}
 	if p.sym != nil {
 		nv, ok := v.(*Term)
